@@ -48,9 +48,11 @@ class Unit:
         self.expected_min_fns = 1
         self.bounded = []       # Kani jobs (filled by units that have them)
         self.rlimit = None
+        self.files = set()
 
     # ---- sources
     def source(self, rel):
+        self.files.add(rel)
         return Source(self.repo, rel)
 
     # ---- assembling
